@@ -14,8 +14,9 @@ export GOFLAGS=-mod=mod GOPROXY=off
 unset GOROOT
 mkdir -p bin .work evidence
 $GO build -o bin/gofail go.etcd.io/gofail
-# Compile (not run) every harness once with the race detector.
-for d in props/c*; do
+# Compile (not run) every claimed harness once with the race detector.
+for id in $(python3 -c "import json; print(' '.join(c['property_id'].lower() for c in json.load(open('MANIFEST.json'))['checks']))"); do
+	d=props/$id
 	[ -d "$d" ] || continue
 	$GO test -c -race -tags verif -o /dev/null "./$d" || { echo "setup: $d failed to build"; exit 1; }
 done
